@@ -53,7 +53,10 @@ PKG = 'copulas'
 # Public entry points (C20: fit, pdf/cdf/percent_point/partial_derivative, sample, select_copula,
 # the root finders, the dataset generators, the visualisation helpers)
 MODEL_METHODS = ['fit', 'probability_density', 'pdf', 'log_probability_density', 'cumulative_distribution',
-                 'cdf', 'percent_point', 'ppf', 'partial_derivative', 'sample']
+                 'cdf', 'percent_point', 'ppf', 'partial_derivative', 'sample', 'generator',
+                 # constructor arguments stay caller-owned for the whole life of the model: the harness checks
+                 # `__init__` together with every other entry point of the class (one statement set)
+                 '__init__']
 ENTRY_CLASSES = [
     ('copulas.bivariate.clayton', 'Clayton'), ('copulas.bivariate.frank', 'Frank'),
     ('copulas.bivariate.gumbel', 'Gumbel'), ('copulas.bivariate.independence', 'Independence'),
